@@ -97,6 +97,13 @@ func RunTimedWorld(r sim.Src, mons []*sim.Mon, keepLog bool, sh TimedShape) *sim
 	if r.Intn("observer", 4) == 0 {
 		ids++
 	}
+	// committee rotation (fault-free worlds only): n+1 honest identities, one of them rests at every height - Y at the
+	// first height, X for the next one or two, then Y again - so X takes part, sits out as a mere observer while the
+	// ledger advances, and returns with another index.  Everybody is honest and synchronous all along.
+	rotate := sh.Kind == "c08" && r.Intn("rotate", 5) == 0
+	if rotate {
+		ids = n + 1
+	}
 	cfg := sim.Cfg{IDs: ids, ValDesc: fmt.Sprintf("const[0..%d]", n-1), StartTip: startTip, AMEVHeight: amev,
 		TimePerBlock: tpb, TsIncrement: []uint64{1_000_000, 1, 1_000_000_000}[pick(r, "inc", 70, 15, 15)], Epoch: drawEpoch(r)}
 	base := make([]int, n)
@@ -104,6 +111,26 @@ func RunTimedWorld(r sim.Src, mons []*sim.Mon, keepLog bool, sh TimedShape) *sim
 		base[i] = i
 	}
 	cfg.Validators = func(uint32) []int { return base }
+	if rotate {
+		x := r.Intn("rotx", ids)
+		y := (x + 1 + r.Intn("roty", ids-1)) % ids
+		k := 1 + r.Intn("rotk", 2)
+		lists := map[int][]int{}
+		for _, rest := range []int{x, y} {
+			for i := 0; i < ids; i++ {
+				if i != rest {
+					lists[rest] = append(lists[rest], i)
+				}
+			}
+		}
+		cfg.ValDesc = fmt.Sprintf("rotating: %d of %d, identity %d rests at the first height and from the %dth on, identity %d in between", n, ids, y, k+2, x)
+		cfg.Validators = func(h uint32) []int {
+			if i := int(h) - int(startTip) - 1; i >= 1 && i <= k {
+				return lists[x]
+			}
+			return lists[y]
+		}
+	}
 	o := sim.TimedOpts{MaxLat: lat, ResetLag: lat * time.Duration(r.Intn("resetlag", 3)), MaxEvents: 60000}
 	maxView := -1
 	var phaseSkew map[int][4]int
@@ -118,7 +145,10 @@ func RunTimedWorld(r sim.Src, mons []*sim.Mon, keepLog bool, sh TimedShape) *sim
 			o.MaxLat = tpb / time.Duration(6+r.Intn("slowdiv", 6))
 			o.ResetLag = o.MaxLat * time.Duration(r.Intn("resetlag2", 3)) / 2
 		}
-		if !slowRound && r.Intn("slowapp", 2) == 0 {
+		// (not with a rotating committee: an identity that rested has no reference instant of the previous round, so as the
+		// next primary it waits a full block time from its own - late - Reset and its backups time out first: the
+		// generator, not the library, would break synchrony)
+		if !slowRound && !rotate && r.Intn("slowapp", 2) == 0 {
 			// slow applications: Reset follows the accepted block only after up to 1.1 block times,
 			// so the next height's traffic reaches the node before it has entered that height
 			o.SlowApp = map[int]bool{}
@@ -133,7 +163,19 @@ func RunTimedWorld(r sim.Src, mons []*sim.Mon, keepLog bool, sh TimedShape) *sim
 		if r.Intn("phaseskew", 3) == 0 {
 			phaseSkew = drawPhaseSkew(r, ids)
 		}
+		if rotate {
+			// the phases of a round reach everybody in their natural order: a resting identity has to follow the chain
+			// from the consensus traffic alone, and an observer that gets the commits before the proposal is not
+			// re-triggered (see MonC08)
+			phaseSkew = map[int][4]int{}
+			for i := 0; i < ids; i++ {
+				phaseSkew[i] = [4]int{0, 1, 2, 3}
+			}
+		}
 		txLag := r.Intn("txlag", 3) == 0 // the pools differ: backups have to ask for proposed transactions and are handed them promptly
+		if rotate {
+			txLag = false // a resting identity that lacks a proposed transaction never completes the block (OnTransaction is for backups)
+		}
 		o.Heights = 3 + r.Intn("heights", 4)
 		o.DupPct = []int{0, 10, 40}[r.Intn("dup", 3)]
 		o.Horizon = time.Duration(o.Heights+3) * tpb * 3
@@ -208,12 +250,16 @@ func RunTimedWorld(r sim.Src, mons []*sim.Mon, keepLog bool, sh TimedShape) *sim
 		o.InitialTxs = r.Intn("inittx", 3)
 		o.Horizon = 1 << 62
 		o.HealBound = true
-		fam := r.Intn("family", 4)
+		fam := r.Intn("family", 5)
 		if sh.Kind == "c13" {
 			fam = 0
 		}
 		silentAndCut := fam == 3 // (iv) silent validators AND a healed partition of some of the live ones
-		if silentAndCut {
+		// (v) silent validators AND another validator that goes down (preferably right after one of its own broadcasts,
+		// e.g. its proposal in the first view it is the primary of) and comes back with empty state: the silent ones
+		// plus the restarted one may exceed F only in the sense that the restarted one forgot - it is honest otherwise
+		silentAndRestart := fam == 4
+		if silentAndCut || silentAndRestart {
 			fam = 0
 		}
 		switch fam {
@@ -267,6 +313,38 @@ func RunTimedWorld(r sim.Src, mons []*sim.Mon, keepLog bool, sh TimedShape) *sim
 				maxView = -1
 				o.Plan = append(o.Plan, drawCut(r, ids, n, tpb, 90, 40)...)
 			}
+			if silentAndRestart {
+				maxView = -1
+				isSilent := func(id int) bool {
+					for _, x := range o.Silent {
+						if x == id {
+							return true
+						}
+					}
+					return false
+				}
+				id := -1
+				if r.Intn("crashfirstlive", 3) > 0 { // the primary of the first view whose primary is alive
+					for k := 0; k < n && id < 0; k++ {
+						if c := int((int64(h)-int64(k))%int64(n)+int64(n)) % n; !isSilent(c) {
+							id = c
+						}
+					}
+				} else {
+					for k := r.Intn("crashid", n); id < 0; k++ {
+						if !isSilent(k % n) {
+							id = k % n
+						}
+					}
+				}
+				dur := tpb * time.Duration(1+r.Intn("crashdur", 40)) / 4 // never zero: crash and restart at one instant could run in either order
+				if r.Intn("crashtrig", 3) > 0 {
+					o.Plan = append(o.Plan, sim.Sched{Kind: "crash", Node: id, Trig: "after-broadcast", TrigNode: id, TrigCount: 1 + r.Intn("crashtrigcount", 6), Dur: dur})
+				} else {
+					at := tpb * time.Duration(r.Intn("crashat", 120)) / 10
+					o.Plan = append(o.Plan, sim.Sched{At: at, Kind: "crash", Node: id}, sim.Sched{At: at + dur, Kind: "restart", Node: id})
+				}
+			}
 		case 1: // any subset cut off at a drawn instant (or at a drawn event) for a drawn duration, then healed
 			o.Plan = append(o.Plan, drawCut(r, ids, n, tpb, 40, 120)...)
 		default: // crash + amnesia restart of one validator
@@ -275,7 +353,7 @@ func RunTimedWorld(r sim.Src, mons []*sim.Mon, keepLog bool, sh TimedShape) *sim
 				id = int(startTip+1) % n
 			}
 			at := tpb * time.Duration(r.Intn("crashat", 30)) / 10
-			dur := tpb * time.Duration(r.Intn("crashdur", 40)) / 4
+			dur := tpb * time.Duration(1+r.Intn("crashdur", 40)) / 4 // never zero: crash and restart at one instant could run in either order
 			o.Plan = append(o.Plan, sim.Sched{At: at, Kind: "crash", Node: id}, sim.Sched{At: at + dur, Kind: "restart", Node: id})
 		}
 	}
@@ -296,6 +374,9 @@ func RunTimedWorld(r sim.Src, mons []*sim.Mon, keepLog bool, sh TimedShape) *sim
 	if phaseSkew != nil {
 		w.PhaseRank = phaseSkew
 		w.Stat("phase_skew")
+	}
+	if rotate {
+		w.Stat("committee_rotation")
 	}
 	w.Stat(fmt.Sprintf("N=%d", n))
 	if amev >= 0 {
@@ -319,6 +400,9 @@ func RunTimedWorld(r sim.Src, mons []*sim.Mon, keepLog bool, sh TimedShape) *sim
 		}
 		if s.Kind == "crash" {
 			w.Stat("family_restart")
+			if len(o.Silent) > 0 {
+				w.Stat("family_silent_and_restart")
+			}
 		}
 	}
 	sim.RunTimed(w, o)
